@@ -657,8 +657,9 @@ def search_for_paths(logger: ConsolePrinter, processor: EYAMLProcessor,
                     )
                     yield YAMLPath(tmp_path)
 
-        # Include YAML Merge Keys when include_value_aliases is enabled
-        if include_value_aliases:
+        # Include YAML Merge Keys -- by the name of the merged anchor -- when
+        # anchor names are searched and include_value_aliases is enabled
+        if include_value_aliases and search_anchors:
             refs = data.merge if hasattr(data, "merge") else []
             for (_, ref_node) in refs:
                 for anchor_name, anchor_node in all_anchors.items():
